@@ -25,6 +25,10 @@ pub struct Cmd {
     /// start when the group's simulation reaches this step (0 = at once)
     #[serde(default)]
     pub start_step: u64,
+    /// stable identity of the command for seeding (so that inserting or
+    /// removing other history steps does not change this command's schedule)
+    #[serde(default)]
+    pub key: Option<u64>,
 }
 
 impl Cmd {
@@ -35,6 +39,7 @@ impl Cmd {
             env: Vec::new(),
             make_tokens: None,
             start_step: 0,
+            key: None,
         }
     }
     pub fn prog(&self) -> &str {
@@ -502,7 +507,10 @@ fn play_group(
     obs: &mut dyn Observer,
 ) -> Result<GroupRec, SimError> {
     let root = paths.root();
-    let gseed = mix(&[seed, idx as u64, 0x67]);
+    let gseed = match cmds.first().and_then(|c| c.key) {
+        Some(k) => mix(&[seed, k, 0x6b]),
+        None => mix(&[seed, idx as u64, 0x67]),
+    };
     let mut sim = Sim::new(&root, &paths.sock(), gseed, knobs.clone())?;
     sim.env_base = base_env(paths);
     sim.now = *clock + 1_000_000_000;
